@@ -419,3 +419,17 @@ Definition check_case (data : text) (limit : N) (lex : option (list text)) (out 
       && (length rs <=? length data)
       && sentences_ok ck data rs
   end.
+
+(* a case of the command-line tool: one input line, the window of SentenceSplitter::new(), the dictionary words of the
+   line as lexicon, the byte ranges of the sentences visible in the tool's output (None = they do not add up to the line) *)
+Definition check_split (data : text) (limit : N) (lex : option (list text)) (out : option (list (N * N))) : bool :=
+  let ck : checker := option_map lookup_lex lex in
+  let lim := N.to_nat limit in
+  match out with
+  | None => false
+  | Some ranges =>
+      let rs := map (fun p => (N.to_nat (fst p), N.to_nat (snd p))) ranges in
+      match res_ranges (split lim ck data) with Some m => ranges_eqb m rs | None => false end
+      && tiles_b 0 data rs
+      && (length rs <=? length data)
+  end.
